@@ -265,6 +265,9 @@ def gen_cases(ctx):
     for N in range(1, 61):  # every N of the property's quantifier, every run
         out.append(gen_sweep(rng, N))
     out.append(gen_interval(rng, 24 if ctx.quick else 160))
+    for i in range(8 * f):  # the lookup as the forcing module performs it, step after step, over uneven bathymetry
+        out.append({"k": "forcing", "seed": rng.randrange(10**9), "N": rng.choice([2, 3, 5, 8, 16]), "vt": rng.choice([1, 2]),
+                    "P": rng.randint(3, 8), "steps": rng.randint(2, 4)})
     return out
 
 
@@ -666,6 +669,53 @@ def eval_interval(desc, ctx):
             "observed": {"goals": len(goals), "not_proved": failed[:5]}}
 
 
+def eval_forcing(desc, ctx):
+    """Forcing.update's level lookup on a real grid with uneven bathymetry: particles change column between
+    the updates while keeping their depth (and their number); after every update the cached (K, A) must give
+    the particle's depth clamped to the levels of the column it is in NOW"""
+    from ladim.ROMS import Forcing, Grid
+    from ladim.state import State
+    from ladim.timekeeper import TimeKeeper
+
+    rng = np.random.default_rng(desc["seed"])
+    imax, jmax, N, P = 9, 8, desc["N"], desc["P"]
+    h = np.round(rng.uniform(20.0, 400.0, size=(jmax, imax)))
+    hc = 10.0 if desc["vt"] == 1 else float(rng.choice([10.0, 60.0]))
+    d = ctx.subdir("c12forcing")
+    path = d / f"f_{desc['seed']}.nc"
+    rf.write_roms(path, imax=imax, jmax=jmax, N=N, times=[0, 600, 1200, 1800, 2400], h=h, hc=hc, Vtransform=desc["vt"], u=0.0, v=0.0)
+    pb, moved = [], 0
+    try:
+        tk = TimeKeeper(start=rf.iso(0), stop=rf.iso(2400), dt=600)
+        st = State()
+        g = Grid(filename=str(path))
+        mods = {"time": tk, "state": st, "grid": g}
+        X = rng.uniform(1.6, imax - 2.6, P); Y = rng.uniform(1.6, jmax - 2.6, P)
+        Z = rng.uniform(-5.0, 450.0, P)  # from above the surface to below the deepest bottom
+        st.append(X=X, Y=Y, Z=Z)
+        fo = Forcing(mods, filename=str(path))
+        mods["forcing"] = fo
+        zr = np.asarray(g.z_r, dtype=float)
+        for s_ in range(desc["steps"]):
+            if s_ > 0:  # every particle moves to another column, depth and count unchanged
+                st["X"], st["Y"] = np.roll(st.X, 1), np.roll(st.Y, 1)
+            tk.update()
+            fo.update()
+            for n in range(P):
+                col = zr[:, int(round(float(st.Y[n]))) - g.j0, int(round(float(st.X[n]))) - g.i0]
+                if N >= 2:
+                    m = oracle_lookup(col.tolist(), float(st.Z[n]), int(fo.K[n]), float(fo.A[n]),
+                                      f"Forcing.update step {s_}, particle {n} at ({float(st.X[n]):.3f}, {float(st.Y[n]):.3f})")
+                    if m:
+                        pb.append(m)
+            moved += P if s_ > 0 else 0
+        fo.close()
+    finally:
+        path.unlink(missing_ok=True)
+    return {"ints": None, "oracle": "; ".join(pb[:3]) or None, "nontrivial": ("forcing", desc["seed"]) if moved else None,
+            "kind": f"forcing-lookup-vt{desc['vt']}", "observed": {"N": N, "particles": P, "steps": desc["steps"]}}
+
+
 def eval_case(desc, ctx):
     k = desc["k"]
     if k == "sdepth":
@@ -682,6 +732,8 @@ def eval_case(desc, ctx):
         return eval_sweep(desc, ctx)
     if k == "interval":
         return eval_interval(desc, ctx)
+    if k == "forcing":
+        return eval_forcing(desc, ctx)
     raise ValueError(f"unknown case kind {k}")
 
 
